@@ -209,11 +209,11 @@ def finish(check, report):
     picked = []
     for c in cands:
         n = per_role.get(c.get('role'), 0)
-        if n < 40: picked.append(c); per_role[c.get('role')] = n + 1
+        if n < getattr(check, 'MAX_REPLAY_PER_ROLE', 40): picked.append(c); per_role[c.get('role')] = n + 1
     confirmed = []
     if picked:
         import replay_client
-        results = replay_client.run_cases([c['case'] for c in picked], profiles=getattr(check, 'REPLAY_PROFILES', ['dev']))
+        results = replay_client.run_cases([c['case'] for c in picked], profiles=getattr(check, 'REPLAY_PROFILES', ['dev']), timeout=getattr(check, 'REPLAY_TIMEOUT', 600))
         for c, outs in zip(picked, results):
             ok, why = check.confirm(c, outs)
             if ok: c['replayed'] = outs; c['why'] = why; confirmed.append(c)
@@ -291,7 +291,7 @@ def main(check):
     if a.replay:
         import replay_client
         rec = json.load(open(a.replay))
-        outs = replay_client.run_cases([rec['case']], profiles=getattr(check, 'REPLAY_PROFILES', ['dev']))[0]
+        outs = replay_client.run_cases([rec['case']], profiles=getattr(check, 'REPLAY_PROFILES', ['dev']), timeout=getattr(check, 'REPLAY_TIMEOUT', 600))[0]
         c = {'case': rec['case'], 'role': rec.get('role'), 'expect': rec.get('expected'), 'detail': rec.get('detail')}
         ok, why = check.confirm(c, outs)
         print(json.dumps({'case': rec['case'], 'replayed': outs, 'violates': ok, 'why': why}, ensure_ascii=False, default=str))
